@@ -273,11 +273,14 @@ static int genMode(int count, uint64_t seed, const char *outFile, const std::str
     FILE *f = fopen(outFile, "w");
     for (int i = 0; i < count; i++) {
         VInst I;
-        if (cls == "hist") {            // lattice instances (total weight <= 7) with re-solve histories
-            I.n = rng.range(3, 5);
+        if (cls == "hist" || cls == "histfar") {            // lattice instances (total weight <= 7) with re-solve histories
+            // histfar: three variables plus an unrelated pair held 40..100 apart, which adds a large constant to the cost -- the loop of
+            // solve() must go on as long as a pass changes the cost by more than 1e-4, however large the cost is
+            bool far = cls == "histfar";
+            I.n = far ? 3 : rng.range(3, 5);
             I.des.resize(I.n); I.w.assign(I.n, 1); I.sc.assign(I.n, 1);
             for (int &d : I.des) d = rng.range(0, 5);
-            int extra = 7 - I.n;
+            int extra = 7 - I.n - (far ? 2 : 0);
             while (extra > 0 && rng.coin()) { I.w[rng.range(0, I.n - 1)]++; extra--; }
             I.m = rng.range(1, I.n + 2);
             int eqPct = rng.coin(1, 3) ? 25 : 0;
@@ -289,6 +292,12 @@ static int genMode(int count, uint64_t seed, const char *outFile, const std::str
                 else { op.kind = 2; op.c = randCon(rng, I.n, -1, 2, eqPct, false); }
                 I.ops.push_back(op);
                 VInst::Op call; call.kind = rng.coin(4, 5) ? 3 : 4; I.ops.push_back(call);
+            }
+            if (far) {
+                int base = I.n;
+                I.n += 2; I.des.push_back(0); I.des.push_back(0); I.w.push_back(1); I.w.push_back(1); I.sc.push_back(1); I.sc.push_back(1);
+                VInst::Con c; c.l = base + 1; c.r = base + 2; c.g = rng.range(2, 5) * 20; c.eq = false; I.cons.push_back(c); I.m++;
+                for (auto &op : I.ops) if (op.kind == 1) { op.des.push_back(0); op.des.push_back(0); }
             }
         } else if (cls == "dag") {      // acyclic systems of inequalities with forks and diamonds, desired positions badly out of order (several splits needed)
             I.n = rng.range(6, 19);
